@@ -28,6 +28,11 @@ def models():
     v5 = json.loads(json.dumps(v5))
     v5["edges"][3]["eover"] = {"gain": 3.0}
     ms.append(("edge-template-per-edge-override", v5))
+    # a hierarchy whose sub-circuits contain EdgeTemplate edges with a string-valued attribute (a second edge input bound to a node
+    # path that is relative to the sub-circuit)
+    v10 = {t: m for t, f, m in gen.c04_extra()}["V10-edge-template-second-input-by-path-target-last"]
+    ms.append(("hierarchy-edge-template-path-inputs",
+               dict(ops={}, nodes={}, edges=[gen.edge("c1/b/lin/x", "c2/a/lin/s_in", 0.3)], circuits={"c1": v10, "c2": json.loads(json.dumps(v10))})))
     return ms
 
 
